@@ -47,7 +47,7 @@ func init() {
 		Rule: "same seeded cases with caller misbehaviour after return (cancel ctx, overwrite key buffer with another live key / noise), builder failures and backend write rejections; liveness restated as logical deadlock freedom under the steered executor " +
 			"(no task runnable, no builder active, a Get blocked in the library) and bounded progress in free mode; at quiescence no key lock remains (hook + black-box follow-up Gets that must rebuild), every build result was written under the key it was requested for; " +
 			"distinct_nontrivial = distinct (config, schedule signature) of runs with a background build or a waiter",
-		Required:    []string{"runs.steered", "runs.free", "followups", "bg.builds", "misbehaviour.mutate", "misbehaviour.cancel", "api.Failover", "api.FailoverOf"},
+		Required:    []string{"runs.steered", "runs.free", "followups", "mass.runs", "mass.followups", "bg.builds", "misbehaviour.mutate", "misbehaviour.cancel", "api.Failover", "api.FailoverOf"},
 		Assumptions: []string{"'Get always completes' is checked as logical deadlock freedom on the explored schedules (finite runs cannot decide unbounded liveness)"},
 		Timeout:     func(string) time.Duration { return 45 * time.Minute },
 	})
@@ -121,6 +121,123 @@ func runFoGeneric(b *Batch, prop string) {
 		}
 		foJudge(b, i, prop, c)
 		collectGarbage(i)
+	}
+	if prop == "C04" {
+		nm := b.Pick(16, 320) / b.NBatches
+		if nm == 0 {
+			nm = 1
+		}
+		for i := 0; i < nm; i++ {
+			if !b.Skip(n + i) {
+				c04Mass(b, n+i)
+			}
+		}
+	}
+}
+
+// c04Mass: mass expiration. Hundreds of distinct stale keys of one Failover are requested at once, so that hundreds of
+// background builds are in flight at the same moment (builders parked at a gate). After the gate opens and everything has
+// finished, no key lock may remain and every key must be buildable again.
+func c04Mass(b *Batch, idx int) {
+	rng := rand.New(rand.NewSource(b.CaseSeed(idx)))
+	p := foPairings[rng.Intn(3)]
+	n := 280 + rng.Intn(320)
+	keys := make([][]byte, n)
+	for i := range keys {
+		keys[i] = []byte(fmt.Sprintf("mass-%d", i))
+	}
+	cfg := foConfig{API: p[0], BackendKind: p[1], MaxStaleness: time.Hour}
+	sc := newSched(false, "random", rng)
+	sc.delayProb = 0
+	r := newFoRun(cfg, keys, sc)
+	defer r.release()
+	r.gateBG = make(chan struct{})
+	r.bgEntered = make(chan int, n)
+	stale := make([]string, n)
+	for k := range keys {
+		stale[k] = r.prepopulate(rng, k, "stale")
+	}
+	b.R.Eval()
+	fail := func(what, msg string) {
+		b.R.Violate(b, idx, "C04:"+p[0]+":mass:"+what, what+": "+msg+fmt.Sprintf(" [%s, %d keys]", cfg.String(), n), map[string]interface{}{"keys": n, "pairing": p})
+	}
+	ran := make(chan struct{})
+	go func() {
+		for k := range keys {
+			r.doGet(0, getSpec{Key: k})
+		}
+		close(ran)
+	}()
+	select {
+	case <-ran:
+	case <-time.After(30 * time.Second):
+		fail("get-blocked", fmt.Sprintf("Gets of stale keys did not return while their background builds were parked; locks: %d", len(r.fo.LockedKeys())))
+		close(r.gateBG)
+		return
+	}
+	inflight := 0
+	for dl := time.After(5 * time.Second); inflight < n; {
+		select {
+		case <-r.bgEntered:
+			inflight++
+			continue
+		case <-dl:
+		}
+		break
+	}
+	b.R.Count("mass.runs", 1)
+	b.R.Count("mass.background_builds_in_flight_max", int64(inflight))
+	b.R.Nontrivial(fmt.Sprintf("mass/%s/%s/inflight>=%d", p[0], p[1], inflight/100*100))
+	close(r.gateBG)
+	for dl := time.Now().Add(10 * time.Second); time.Now().Before(dl); {
+		r.mu.Lock()
+		act := 0
+		for _, a := range r.active {
+			act += a
+		}
+		r.mu.Unlock()
+		if act == 0 && len(r.fo.LockedKeys()) == 0 {
+			break
+		}
+		time.Sleep(200 * time.Microsecond)
+	}
+	if lk := r.fo.LockedKeys(); len(lk) != 0 {
+		fail("lock-leaked", fmt.Sprintf("%d key lock(s) left after all Gets and background builds finished (%d builds were in flight together), e.g. %q", len(lk), inflight, lk[0]))
+	}
+	for _, e := range r.snapshotLog() {
+		if e.Kind == "get.ret" && (e.Err != "" || e.Val != stale[e.Key]) {
+			fail("stale-not-served", fmt.Sprintf("Get of key %d returned (%q,%q), want the stale value", e.Key, e.Val, e.Err))
+			break
+		}
+	}
+	// every key is buildable again: entry removed, a lone Get has to build synchronously
+	for k := range keys {
+		_ = r.be.Delete(bg, keys[k])
+	}
+	r.gateBG = nil
+	before := len(r.snapshotLog())
+	again := make(chan struct{})
+	go func() {
+		for k := range keys {
+			r.doGet(1, getSpec{Key: k})
+		}
+		close(again)
+	}()
+	select {
+	case <-again:
+	case <-time.After(30 * time.Second):
+		fail("later-get-blocked", fmt.Sprintf("a later lone Get of a key never returned; locks left: %d", len(r.fo.LockedKeys())))
+		return
+	}
+	built := map[int]bool{}
+	for _, e := range r.snapshotLog()[before:] {
+		if e.Kind == "build.enter" {
+			built[e.Key] = true
+		}
+	}
+	b.R.Count("mass.followups", int64(len(built)))
+	if len(built) != n {
+		fail("later-get-did-not-build", fmt.Sprintf("%d of %d keys were not built again by a later Get on an absent entry", n-len(built), n))
 	}
 }
 
@@ -202,6 +319,10 @@ func foJudge(b *Batch, idx int, prop string, c *foCase) *foExec {
 		}
 	case "C04":
 		findings = oracleCompletion(x.run, x.outcome, x.log, x.used, c.Collide)
+		if c.Steered && c.Cfg.SyncRead && x.outcome == "" {
+			findings = append(findings, oracleNoLostUpdate(x.log)...)
+			b.R.Count("runs.lost_update_checked", 1)
+		}
 		b.R.Count("followups", int64(len(x.used)))
 		if nBG > 0 || nWait > 0 {
 			b.R.Nontrivial(sig)
